@@ -383,6 +383,9 @@ func checkGameSide(c *Ctx) {
 		var first *ssa.Call
 		for _, in := range f.Blocks[0].Instrs {
 			if call, ok := in.(*ssa.Call); ok {
+				if isLogCall(call) {
+					continue
+				}
 				first = call
 				break
 			}
